@@ -373,7 +373,8 @@ func (cc *connectUnaryClientConn) Send(msg any) error {
 			// empty one is a valid message, which the caller never sent.
 			cc.duplexCall.SetError(err)
 		}
-		return err
+		// Whatever went wrong, once the context is done that's why the call fails.
+		return wrapIfContextDone(cc.duplexCall.ctx, err)
 	}
 	return nil // must be a literal nil: nil *Error is a non-nil error
 }
@@ -498,7 +499,8 @@ func (cc *connectStreamingClientConn) Spec() Spec {
 
 func (cc *connectStreamingClientConn) Send(msg any) error {
 	if err := cc.marshaler.Marshal(msg); err != nil {
-		return err
+		// Whatever went wrong, once the context is done that's why the call fails.
+		return wrapIfContextDone(cc.duplexCall.ctx, err)
 	}
 	return nil // must be a literal nil: nil *Error is a non-nil error
 }
